@@ -232,7 +232,7 @@ fn c05_reg_ev_is_r2_for_centred_residual() {
 }
 
 // ---------------------------------------------------------------- two target columns: every score per column
-// @unit class=bounded tier=quick mem=heavy bound="n=2 rows,2 columns,|v|<=4" fns=linfa::metrics_regression::MultiTargetRegression::max_error,linfa::metrics_regression::MultiTargetRegression::mean_absolute_error,linfa::metrics_regression::MultiTargetRegression::mean_squared_error,linfa::metrics_regression::MultiTargetRegression::median_absolute_error
+// @unit class=bounded tier=thorough mem=heavy bound="n=2 rows,2 columns,|v|<=4" fns=linfa::metrics_regression::MultiTargetRegression::max_error,linfa::metrics_regression::MultiTargetRegression::mean_absolute_error,linfa::metrics_regression::MultiTargetRegression::mean_squared_error,linfa::metrics_regression::MultiTargetRegression::median_absolute_error
 #[kani::proof]
 #[kani::unwind(6)]
 #[kani::stub(alloc::fmt::format, fmt_stub)]
@@ -310,4 +310,24 @@ fn c05_mreg_explained_variance_textbook() {
     let r = p.explained_variance(&t).unwrap();
     assert!(r.len() == 2 && r[0] == o_ev(&a0, &b0) && r[1] == o_ev(&a1, &b1));
     kani::cover!(o_ev(&a0, &b0) == 0.0 && o_ev(&a1, &b1) == 0.75);
+}
+
+
+// Witness of the KNOWN FINDING on explained_variance (known_findings.json): the exact wrong value of the pinned tree,
+// 1 - (sum d^2 - mean d) / sum (y - mean y)^2.  See the note on witnesses in classification.kani.rs.
+// @unit class=bounded tier=quick role=witness bound="n=2,|v|<=4,truth non-constant" fns=linfa::metrics_regression::SingleTargetRegression::explained_variance
+#[kani::proof]
+#[kani::unwind(6)]
+#[kani::stub(alloc::fmt::format, fmt_stub)]
+fn c05_explained_variance_known_form() {
+    let (a, b) = (ints::<2>(4), ints::<2>(4));
+    kani::assume(b[0] != b[1]);
+    let got = arr(&a).explained_variance(&arr(&b)).unwrap();
+    let d = diffs(&a, &b);
+    let sum_sq = (d[0] * d[0] + d[1] * d[1]) as f32;
+    let mean_d = (d[0] + d[1]) as f32 / 2.0;                 // exact: halves
+    let wb = widen(&b);
+    let den = nvar(&wb) as f32 / 2.0;                        // sum (y - mean y)^2 = (n*sum y^2 - (sum y)^2) / n, n = 2
+    assert!(got == 1.0 - (sum_sq - mean_d) / den);
+    kani::cover!(d[0] + d[1] != 0);
 }
